@@ -11,6 +11,7 @@ import Pyab.Proofs.RunGenerated
 import Pyab.Proofs.ChoiceTotal
 import Pyab.Proofs.KeyTotal
 import Pyab.Properties.C09
+import Pyab.Properties.C12
 namespace Pyab.Properties
 open Pyab Pyab.Spec Pyab.Proofs Pyab.Proofs.Run
 
@@ -26,7 +27,7 @@ theorem C15_total (cfg : RunCfg) (hc : CanonicalExpr cfg.toGenCfg) (hs : cfg.str
     (gs : List Group) (pop : List PyVal) (ws : List Num)
     (hroute : specRoute env e.cond = .ok (some gs)) (hret : retVals cfg.toGenCfg gs = .ok (pop, ws))
     (hlv : e.localVars ≠ [])
-    (key : String) (hkey : keyOf (e.salt.getD "") e.localVars env = .ok key)
+    (key : String) (hkey : keyOf cfg.printable (e.salt.getD "") e.localVars env = .ok key)
     (cum : List Num) (last : Num) (t : Dbl)
     (hacc : Choice.accumulate ws = .ok cum) (hlast : cum.getLast? = some last)
     (htot : Num.add last (.f Dbl.zero) = .ok (.f t))
@@ -84,11 +85,11 @@ example : runGenerated Generated.runCfg { exC09 with splitters := none } [("coun
 
 /-- **The key is total** over None, booleans, floats (inf, nan, -0.0 included), every string
     and ints up to the digit limit. -/
-theorem C15_keyOf_total (salt : String) (names : List String) (env : Env)
+theorem C15_keyOf_total (pr : Nat → Bool) (salt : String) (names : List String) (env : Env)
     (h : ∀ n ∈ names, ∃ v, env.get n = some v ∧
       (v = .none ∨ (∃ b, v = .bool b) ∨ (∃ d nz, v = .float d nz) ∨ (∃ s, v = .str s) ∨
        (∃ i, v = .int i ∧ PyVal.natDigits i.natAbs ≤ PyVal.maxStrDigits))) :
-    ∃ key, keyOf salt names env = .ok key := by
+    ∃ key, keyOf pr salt names env = .ok key := by
   apply keyOf_ok
   intro n hn
   obtain ⟨v, hv, hk⟩ := h n hn
@@ -100,9 +101,9 @@ theorem C15_keyOf_total (salt : String) (names : List String) (env : Env)
   · rfl
   · simp [keyable, hi]
 
-example : ∃ key, keyOf "s" ["a", "b", "c"]
+example (pr : Nat → Bool) : ∃ key, keyOf pr "s" ["a", "b", "c"]
     [("a", .str "josé ퟿"), ("b", .float .nan false), ("c", .none)] = .ok key :=
-  C15_keyOf_total _ _ _ (by
+  C15_keyOf_total _ _ _ _ (by
     intro n hn
     simp only [List.mem_cons, List.not_mem_nil, or_false] at hn
     rcases hn with rfl | rfl | rfl
@@ -112,30 +113,92 @@ example : ∃ key, keyOf "s" ["a", "b", "c"]
 
 /-- … and the first splitter bound to an int beyond the digit limit makes `str()` raise
     ValueError (known finding K3: CPython's int → str conversion limit) -/
-theorem C15_keyOf_int_too_long (salt : String) (pre post : List String) (n : String) (i : Int) (env : Env)
+theorem C15_keyOf_int_too_long (pr : Nat → Bool) (salt : String) (pre post : List String) (n : String) (i : Int) (env : Env)
     (hpre : ∀ m ∈ pre, ∃ v, env.get m = some v ∧ keyable v = true)
     (hn : env.get n = some (.int i)) (hi : PyVal.natDigits i.natAbs > PyVal.maxStrDigits) :
-    keyOf salt (pre ++ n :: post) env = .error (.valueError "digits") :=
-  keyOf_digits salt pre post n i env hpre hn hi
+    keyOf pr salt (pre ++ n :: post) env = .error (.valueError "digits") :=
+  keyOf_digits pr salt pre post n i env hpre hn hi
 
 /-- (a concrete 4301-digit literal is beyond what the kernel evaluates through `toString`;
     the example keeps the int symbolic) -/
-example (i : Int) (hi : PyVal.natDigits i.natAbs > PyVal.maxStrDigits) :
-    keyOf "s" ["a", "b"] [("a", .str "x"), ("b", .int i)] = .error (.valueError "digits") :=
-  C15_keyOf_int_too_long "s" ["a"] [] "b" i _ (by
+example (pr : Nat → Bool) (i : Int) (hi : PyVal.natDigits i.natAbs > PyVal.maxStrDigits) :
+    keyOf pr "s" ["a", "b"] [("a", .str "x"), ("b", .int i)] = .error (.valueError "digits") :=
+  C15_keyOf_int_too_long pr "s" ["a"] [] "b" i _ (by
     intro m hm
     simp only [List.mem_singleton] at hm
     subst hm
     exact ⟨_, rfl, rfl⟩) rfl hi
 
 /-- the only errors of the key construction -/
-theorem C15_keyOf_errors (salt : String) (names : List String) (env : Env) (err : Err)
-    (h : keyOf salt names env = .error err) :
+theorem C15_keyOf_errors (pr : Nat → Bool) (salt : String) (names : List String) (env : Env) (err : Err)
+    (h : keyOf pr salt names env = .error err) :
     (err = .nameError ∧ ∃ n ∈ names, env.get n = none) ∨ err = .valueError "digits" :=
-  keyOf_err salt names env err h
+  keyOf_err pr salt names env err h
 
 example : (Err.nameError = .nameError ∧ ∃ n ∈ ["a"], Env.get [] n = none) ∨ Err.nameError = .valueError "digits" :=
-  C15_keyOf_errors "s" ["a"] [] _ rfl
+  C15_keyOf_errors (fun _ => true) "s" ["a"] [] _ rfl
+
+/-! ### `str()` of a value: strings inside tuples are printed by `repr(str)` -/
+
+/-- `str(("it's",))` is `("it's",)`: a string with an apostrophe and no double quote is
+    double-quoted -/
+example : PyVal.pyStr Generated.isPrintable (.tuple [.str "it's"]) = .ok "(\"it's\",)" := by
+  decide +kernel
+
+/-- the value `("a\\b", 1)` in Python source notation (one backslash in the string) prints as the
+    text `('a\\b', 1)` (two backslash characters); both sides below are Lean literals, which
+    escape a backslash the same way -/
+example : PyVal.pyStr Generated.isPrintable (.tuple [.str "a\\b", .int 1]) = .ok "('a\\\\b', 1)" := by
+  decide +kernel
+
+/-- … both quotes: single-quoted with the apostrophe escaped; a non-printable character is
+    escaped, a printable non-ASCII one is not; nesting -/
+example : PyVal.pyStr Generated.isPrintable (.tuple [.str "it's \"q\""]) = .ok "('it\\'s \"q\"',)" := by
+  decide +kernel
+example : PyVal.pyStr Generated.isPrintable (.tuple [.str "é", .str "\x00"]) = .ok "('é', '\\x00')" := by
+  decide +kernel
+example : PyVal.pyStr Generated.isPrintable (.tuple [.tuple [.str "x'"], .float (Dbl.ofDecimal false 25 1) false])
+    = .ok "((\"x'\",), 2.5)" := by
+  decide +kernel
+
+/-- … and so it is the double-quoted print that reaches the key -/
+example : keyOf Generated.runCfg.printable "s" ["u"] [("u", .tuple [.str "it's"])] = .ok "s(\"it's\",)" := by
+  decide +kernel
+
+/-- the top-level string is not quoted at all -/
+theorem C15_pyStr_str (r : String → String) (s : String) : PyVal.pyStrWith r (.str s) = .ok s := rfl
+
+/-- **scalars do not see the string printer**: `str()` of a value that is neither a string
+    nor a tuple is the same whatever `repr(str)` is -/
+theorem C15_pyStr_scalar_indep (r r' : String → String) (v : PyVal)
+    (hs : ∀ s, v ≠ .str s) (ht : ∀ l, v ≠ .tuple l) :
+    PyVal.pyStrWith r v = PyVal.pyStrWith r' v := by
+  cases v with
+  | none => rfl
+  | bool b => rfl
+  | int i => rfl
+  | float d nz => rfl
+  | str s => exact absurd rfl (hs s)
+  | tuple l => exact absurd rfl (ht l)
+
+/-- in particular for the printer of the configuration: any two `printable` tables agree -/
+theorem C15_pyStr_scalar_indep_printable (pr pr' : Nat → Bool) (v : PyVal)
+    (hs : ∀ s, v ≠ .str s) (ht : ∀ l, v ≠ .tuple l) :
+    PyVal.pyStr pr v = PyVal.pyStr pr' v :=
+  C15_pyStr_scalar_indep _ _ v hs ht
+
+/-- (a string at top level is independent of it too: only strings *inside tuples* changed) -/
+theorem C15_pyStr_nontuple_indep (r r' : String → String) (v : PyVal) (ht : ∀ l, v ≠ .tuple l) :
+    PyVal.pyStrWith r v = PyVal.pyStrWith r' v := by
+  cases v with
+  | none => rfl
+  | bool b => rfl
+  | int i => rfl
+  | float d nz => rfl
+  | str s => rfl
+  | tuple l => exact absurd rfl (ht l)
+
+example (r : String → String) : PyVal.pyStrWith r (.float .nan false) = .ok "nan" := by rfl
 
 /-- **UTF-8 never raises an encode error**, whatever the key -/
 theorem C15_utf8_never_encode_error (key : String) (pop : List PyVal) (ws : List Num) :
